@@ -172,6 +172,26 @@ DESCR = {
  "C18-J": ("size-limited frame reader detects 'buffer full' by fragment length", "a frame whose length with the delimiter is an exact multiple of 4096"),
  "C19-I": ("'@' test moved into a helper written as IndexByte(address,'@') == -1", "a filesystem path containing '@' plus a stale socket at that path"),
  "C20-I": ("inherited listener asserted to be a *net.UnixListener (SetUnlinkOnClose(false))", "the selected inherited descriptor is a listening TCP socket"),
+ "C01-K": ("ctxio Write sets the write deadline only when the context has one", "a reply under a derived context with a deadline, then - after that instant - a reply under the plain context"),
+ "C02-K": ("raw JSON reply parameters spliced into a hand-built frame without validation", "a handler replying a nil json.RawMessage (or invalid raw JSON)"),
+ "C03-K": ("bridge run as sh -c \"exec <bridge>\"", "a bridge string that is not a simple command (VAR=x prog, cd d && prog)"),
+ "C04-K": ("duplicate check and table insert folded into a helper; the 'already running' refusal now comes after the insert", "RegisterInterface while serving (refused), then a call to that interface"),
+ "C05-K": ("New() memoised in a package-level map keyed by the trimmed text", "the same interface parsed twice with different leading/trailing blanks"),
+ "C06-K": ("New() converted to named results with a deferred error wrapper; bare returns", "a well-formed description without methods: tree AND error"),
+ "C07-K": ("output written through os.OpenFile without O_TRUNC", "a re-run into a directory holding a longer earlier output of the same interface"),
+ "C08-K": ("oneway guard moved from sendMessage to Reply/ReplyError; service-level error replies bypass it", "a oneway call through a stub that hits MethodNotImplemented / InvalidParameter / MethodNotFound, then a normal call"),
+ "C09-K": ("ring of the last 64 descriptions wraps with > instead of >=", "the 65th distinct valid description parsed in one process"),
+ "C10-K": ("lingering close: CloseWrite, then drain reads under the serving context", "an invalid frame while the client keeps its socket open, then Shutdown"),
+ "C11-K": ("receive returns the json.Unmarshal error of the reply parameters", "a nil out parameter and a reply that has parameters"),
+ "C12-K": ("oneway short-cut moved in front of the error-name validation", "ReplyError with a refused name under a oneway call"),
+ "C13-K": ("Connection.Call closes the connection on every error that is not *Error", "a standard org.varlink.service error (typed), then another call on the same Connection"),
+ "C14-K": ("Bind starts a goroutine that calls Shutdown when its context is done; nothing stops it", "the context of an earlier serve period ends during a later period"),
+ "C15-K": ("conncounter-- moved out of the defer; the handler-error branch returns before it", "a connection ended by the service (handler error, non-call frame), then idle"),
+ "C16-K": ("bridge keeps the last stderr line for its EOF error; written and read without synchronisation", "a bridge that writes to stderr and then ends its output"),
+ "C17-K": ("PipeCon.Read reaps the bridge (cmd.Wait) at EOF", "a bridge that closes its output but stays alive, then the context ends"),
+ "C18-K": ("ReadBytes returns nil data together with an error", "a stream that ends behind bytes without delimiter, consumed by a frame read"),
+ "C19-K": ("'filesystem socket' remembered in a field that the tcp arm and teardown never clear", "one Service bound to a filesystem unix address and later to a tcp address"),
+ "C20-K": ("defer file.Close() on the inherited descriptor's os.File", "a second serve period (or second Service) in the same activated process"),
 }
 
 conf = {}
@@ -215,7 +235,7 @@ for pid in sorted(props):
                 shutil.copy(os.path.join(out, extra), os.path.join(d, extra))
         if os.path.isdir(os.path.join(out, f"{pid}_{v}_demo")):
             shutil.copytree(os.path.join(out, f"{pid}_{v}_demo"), os.path.join(d, "demo")); demo = "demo/run.sh"
-        for nf in (f"{pid}_notes.md", f"{pid}_notes2.md", f"{pid}_notes3.md", f"{pid}_notes4.md", f"{pid}_notes5.md"):
+        for nf in (f"{pid}_notes.md", f"{pid}_notes2.md", f"{pid}_notes3.md", f"{pid}_notes4.md", f"{pid}_notes5.md", f"{pid}_notes6.md"):
             if os.path.exists(os.path.join(out, nf)):
                 shutil.copy(os.path.join(out, nf), os.path.join(d, "notes.md"))
         what, needs = DESCR.get(key, ("see notes.md", "see notes.md"))
